@@ -394,6 +394,11 @@ func expectRejected(op string, rt reflect.Type, byValue bool) (string, *Failure)
 	if byValue && op != "decode" {
 		arg = p.Elem().Interface()
 	}
+	return expectRejectedArg(op, rt, arg)
+}
+
+// expectRejectedArg: as expectRejected, for a given argument of (a pointer to) type rt.
+func expectRejectedArg(op string, rt reflect.Type, arg interface{}) (string, *Failure) {
 	switch op {
 	case "size":
 		var pv interface{}
@@ -431,6 +436,19 @@ func expectRejected(op string, rt reflect.Type, byValue bool) (string, *Failure)
 		}
 		return err.Error(), nil
 	case "decode":
+		p := reflect.ValueOf(arg)
+		if p.Kind() != reflect.Ptr || p.IsNil() {
+			// no destination memory to watch (typed nil pointer): only the rejection itself
+			n, err, f := fDecode([]byte{8, 0, 1, 0, 0, 0, 2, 0}, arg)
+			if f != nil {
+				f.Msg = fmt.Sprintf("type %s: %s", rt, f.Msg)
+				return "", f
+			}
+			if err == nil || n != 0 {
+				return "", failf("invalid-accepted", "DecodeObject returned n=%d, err=%v for a nil pointer to %s", n, err, rt)
+			}
+			return err.Error(), nil
+		}
 		snap := append([]byte{}, unsafe.Slice((*byte)(p.UnsafePointer()), int(rt.Size()))...)
 		msg := []byte{8, 0, 100, 0, 0, 0, 1, 8, 0, 1, 0, 0, 0, 2, 11, 0, 3, 0, 0, 0, 1, 'x', 0}
 		n, err, f := fDecode(msg, arg)
@@ -608,6 +626,11 @@ func runC13(w *worker) func(c c13Case) *Failure {
 					return failf("rejection-inconsistent", "op %d: %s on level %d gave %q, earlier %q", i, op.Op, lvl, msg, prev)
 				}
 				msgs[key] = msg
+			}
+			// a typed nil pointer is an argument of the same unsupported type: rejected like any other
+			if _, f := expectRejectedArg(op.Op, rt, reflect.Zero(reflect.PointerTo(rt)).Interface()); f != nil {
+				f.Msg = fmt.Sprintf("op %d (%s with a typed nil pointer, level %d of %v): %s", i, op.Op, lvl, c.Wraps, f.Msg)
+				return f
 			}
 		}
 		deep := len(c.Wraps) >= 1
